@@ -50,6 +50,7 @@ func main() {
 	step("isproofed", func() { runIsProofed(r) })
 	step("pow", func() { runPowScenarios(r) })
 	step("pow-forks", func() { runPowForks(r) })
+	step("pluggable", func() { runPluggableRestarts(r) })
 	step("compact", func() { runCompact(r) })
 
 	// every mechanism of the statement must have been reached
